@@ -283,7 +283,8 @@ def main():
         explanation="Deductive: TorchBackend._solve_euler and JaxBackend._solve_euler/_solve_heun (nested jax.lax.scan over closures; scan is an "
                     "assumed contract verified like a loop: inductive invariant over (counter, carry), clause over emitted rows, closure "
                     "bodies executed symbolically from the real source) satisfy the same contracts (euler_iter/heun_iter) as the "
-                    "BaseBackend loops, for every step count, cadence and state. Bounded: each backend against the one reference semantics (so they agree with each "
+                    "BaseBackend loops, for every step count, cadence and state; BaseBackend._process_idx (the index hook every code-generating "
+                    "backend inherits) emits i + start for a scalar index and (a + start):b for a range, for all indices and start offsets. Bounded: each backend against the one reference semantics (so they agree with each "
                     "other); generated Fortran / XLA / torch kernels are outside any verifier available here.",
         assumptions=["as for C03 (floats as reals, value semantics of the vector field)",
                      "jax.lax.scan(f, init, None, length=L) has its documented semantics and f is traced as a pure function; jnp.asarray / "
